@@ -418,21 +418,21 @@ func genDefect(r *rng) (string, string) {
 		t := []string{"Point", "LineString", "Polygon", "MultiPoint", "MultiLineString", "MultiPolygon"}[r.intn(6)]
 		return wrap(`{"type":"` + t + `","coordinates":` + []string{`{"a":[1,2]}`, "5", `"x"`, "null", "true"}[r.intn(5)] + `}`), "coordinates-not-array"
 	case 10:
-		return wrap(`{"type":"Point","coordinates":` + []string{"[1]", "[]", `[1,"2"]`, "[true,2]", "[[1,2]]", `[1,2,"z"]`, `[1,{"a":1}]`}[r.intn(7)] + `}`), "bad-position"
+		return wrap(`{"type":"Point","coordinates":` + []string{"[1]", "[]", `[1,"2"]`, "[true,2]", "[[1,2]]", `[1,2,"z"]`, `[1,{"a":1}]`, `[1,2,3,"m"]`, `[1,2,null,[4]]`}[r.intn(9)] + `}`), "bad-position"
 	case 11:
-		return wrap(`{"type":"LineString","coordinates":` + []string{"[[1,2]]", "[]", "[[1,2],[3]]", `[[1,2],["a",4]]`, "[[1,2],null]", "[[1,2],[3,null]]", "[[1,2],5]", `[[1,2],[3,4,true]]`, "[1,2]"}[r.intn(9)] + `}`), "bad-line"
+		return wrap(`{"type":"LineString","coordinates":` + []string{"[[1,2]]", "[]", "[[1,2],[3]]", `[[1,2],["a",4]]`, "[[1,2],null]", "[[1,2],[3,null]]", "[[1,2],5]", `[[1,2],[3,4,true]]`, "[1,2]", `[[1,2,3],[4,5,6,"x"]]`, `[[1,2,3],[4,5,6,null]]`, `[[1,2,3,4],[4,5,6,[7]]]`, `[[1,2,3],[4,5,{"a":1}]]`, `[[1,2,3],[4,5,6,true],[7,8,9]]`}[r.intn(14)] + `}`), "bad-line"
 	case 12:
 		return wrap(`{"type":"Polygon","coordinates":` + []string{"[]", "[[[0,0],[1,0],[0,0]]]", "[[[0,0],[1,0],[1,1],[0,1]]]", "[[[0,0],[1,0],[1,1],[0,0]],[[0,0],[1,1]]]", "[[[0,0],[1,0],[1,null],[0,0]]]", `[[[0,0],[1,0],[1],[0,0]]]`, "[[0,0],[1,0],[1,1],[0,0]]", "[5]", `[[[0,0],[1,0],["1",1],[0,0]]]`}[r.intn(9)] + `}`), "bad-polygon"
 	case 13:
 		return wrap(`{"type":"MultiPoint","coordinates":` + []string{"[[1]]", "[[1,2],[3]]", `[[1,2],["x",1]]`, "[5]", "[[1,2],true]", `["ab"]`}[r.intn(6)] + `}`), "bad-multipoint"
 	case 14:
-		return wrap(`{"type":"MultiLineString","coordinates":` + []string{"[[[1,2]]]", "[[[1,2],[3,4]],[[5,6]]]", "[[1,2],[3,4]]", "[[[1,2],[3,null]]]", "[5]", "[[]]"}[r.intn(6)] + `}`), "bad-multiline"
+		return wrap(`{"type":"MultiLineString","coordinates":` + []string{"[[[1,2]]]", "[[[1,2],[3,4]],[[5,6]]]", "[[1,2],[3,4]]", "[[[1,2],[3,null]]]", "[5]", "[[]]", `[[[1,2,3],[4,5,6,"x"]]]`, `[[[1,2],[3,4]],[[1,2,3],[4,5,6,false]]]`}[r.intn(8)] + `}`), "bad-multiline"
 	case 15:
 		return wrap(`{"type":"MultiPolygon","coordinates":` + []string{"[[]]", "[[[[0,0],[1,0],[0,0]]]]", "[[[[0,0],[1,0],[1,1],[0,1]]]]", "[[[0,0],[1,0],[1,1],[0,0]]]", "[5]", `[[[[0,0],[1,0],[1,"1"],[0,0]]]]`}[r.intn(6)] + `}`), "bad-multipolygon"
 	case 16:
 		return `{"type":"Feature","properties":{}}`, "missing-geometry"
 	case 17:
-		return `{"type":"Feature","geometry":` + []string{"null", "[1,2]", `"Point"`, "5"}[r.intn(4)] + `}`, "geometry-not-object"
+		return `{"type":"Feature","geometry":` + []string{"null", "[1,2]", `"Point"`, "5", `"{\"type\":\"Point\",\"coordinates\":[1,2]}"`, `"{}"`, `" {\"type\":\"LineString\",\"coordinates\":[[1,2],[3,4]]}"`}[r.intn(7)] + `,"properties":{}}`, "geometry-not-object"
 	case 18:
 		return `{"type":"FeatureCollection"` + []string{"", `,"features":{}`, `,"features":null`, `,"features":5`, `,"features":[5]`, `,"features":[null]`, `,"features":[[1,2]]`}[r.intn(7)] + `}`, "bad-features"
 	case 19:
@@ -544,6 +544,22 @@ func genDocs(o *out, r *rng, thorough bool, suite string) {
 				opts = optsStr(64, r.pick([]int{1, 32, 64}), r.pick([]int{1, 2}), false, false, false, false)
 			}
 			emitParse(o, "oparsewf", id, opts, text)
+			o.op("ojson %s", id)
+			o.op("xroundtrip %s %s", id, opts)
+		}
+		o.op("oreset")
+		// number literals beyond the binary64 range (±Inf after Parse): declined by the model
+		// (unmodelled), the implementation's outcome class is judged; predicates on such objects: xinf
+		for _, text := range []string{
+			`{"type":"Point","coordinates":[1e999,2]}`,
+			`{"type":"LineString","coordinates":[[0,0],[-1e999,1e999]]}`,
+			`{"type":"Polygon","coordinates":[[[1e999,0],[1,0],[1,1],[1e999,0]]]}`,
+			`{"type":"Polygon","coordinates":[[[0,0],[1e999,0],[1e999,1e999],[0,1e999],[0,0]]]}`,
+			`{"type":"MultiPolygon","coordinates":[[[[-1e999,0],[1,0],[1,1],[-1e999,0]]]]}`,
+		} {
+			id := o.newID("H")
+			opts := randOpts(r)
+			emitParse(o, "oparse", id, opts, text)
 			o.op("ojson %s", id)
 			o.op("xroundtrip %s %s", id, opts)
 		}
